@@ -392,7 +392,7 @@ def canonV : PTy → Val → Bool
   | .bitstr _, .bits bs unused => canonBits bs unused
   | .kmstr _ _ _ _, .octets os => decide os.wf
   | .unkstr, .octets os => decide os.wf
-  | .seq root rattrs _ adds, .seq vs => canonRoot root rattrs vs && canonAdds adds (vs.drop root.length)
+  | .seq root rattrs _ adds aattrs, .seq vs => canonRoot root rattrs vs && canonAdds adds aattrs (vs.drop root.length)
   | .choice root _ _ adds, .choice i v =>
     if i < root.length then canonAlt root i v else canonAlt adds (i - root.length) v
   | .seqOf _ e, .list vs => vs.all (canonV e)
@@ -403,10 +403,10 @@ def canonRoot : List PTy → List Attr → List Val → Bool
   | [], _, _ => true
   | m :: ms, a :: as, v :: vs => (isAbsent v || (!isDefault a v && canonV m v)) && canonRoot ms as vs
   | _, _, _ => false
-def canonAdds : List PTy → List Val → Bool
-  | [], _ => true
-  | m :: ms, v :: vs => (isAbsent v || canonV m v) && canonAdds ms vs
-  | _, _ => false
+def canonAdds : List PTy → List Attr → List Val → Bool
+  | [], _, _ => true
+  | m :: ms, a :: as, v :: vs => (isAbsent v || (!isDefault a v && canonV m v)) && canonAdds ms as vs
+  | _, _, _ => false
 def canonAlt : List PTy → Nat → Val → Bool
   | [], _, _ => false
   | a :: _, 0, v => canonV a v
@@ -415,7 +415,7 @@ end
 
 mutual
 def wfP : PTy → Bool
-  | .seq root rattrs _ adds => wfPs root && wfPs adds && rattrs.length == root.length && decide (adds.length < 16384)
+  | .seq root rattrs _ adds _ => wfPs root && wfPs adds && rattrs.length == root.length && decide (adds.length < 16384)
   | .choice root order _ adds => wfPs root && wfPs adds && decide (order.length ≤ root.length)
   | .seqOf _ e => wfP e
   | .setOf _ e => wfP e
@@ -429,7 +429,7 @@ theorem PTy.induct' (P : PTy → Prop)
     (boolean : P .boolean) (null : P .null) (integer : ∀ c, P (.integer c))
     (enumerated : ∀ r e, P (.enumerated r e)) (real : P .real) (bitstr : ∀ s, P (.bitstr s))
     (octstr : ∀ s, P (.octstr s)) (kmstr : ∀ cw a b s, P (.kmstr cw a b s)) (unkstr : P .unkstr)
-    (seq : ∀ root rattrs ext adds, (∀ m ∈ root, P m) → (∀ m ∈ adds, P m) → P (.seq root rattrs ext adds))
+    (seq : ∀ root rattrs ext adds aattrs, (∀ m ∈ root, P m) → (∀ m ∈ adds, P m) → P (.seq root rattrs ext adds aattrs))
     (choice : ∀ root order ext adds, (∀ m ∈ root, P m) → (∀ m ∈ adds, P m) → P (.choice root order ext adds))
     (seqOf : ∀ s e, P e → P (.seqOf s e)) (setOf : ∀ s e, P e → P (.setOf s e)) : ∀ t, P t := by
   intro t
@@ -547,21 +547,30 @@ theorem decRoot_enc (root : List PTy) (ih : ∀ m ∈ root, RT m) :
                 · simp [optCount, ho, h5]; omega
                 · simp [optCount, ho, h5]
 
-theorem encAdds_absent (m : PTy) (ms : List PTy) (vs : List Val) :
-    encAdds (m :: ms) (.absent :: vs) =
-      match encAdds ms vs with
+theorem encAdds_absent (m : PTy) (ms : List PTy) (a : Attr) (as : List Attr) (vs : List Val) :
+    encAdds (m :: ms) (a :: as) (.absent :: vs) =
+      match encAdds ms as vs with
       | some (bm, b) => some (false :: bm, b)
       | none => none := by
   rw [encAdds]; rfl
 
-theorem encAdds_present (m : PTy) (ms : List PTy) (v : Val) (vs : List Val) (hv : isAbsent v = false) :
-    encAdds (m :: ms) (v :: vs) =
-      match encUPER m v, encAdds ms vs with
+/-- CANONICAL-PER §19.5 for an extension addition: the DEFAULT value is encoded as absent -/
+theorem encAdds_default (m : PTy) (ms : List PTy) (a : Attr) (as : List Attr) (v : Val) (vs : List Val)
+    (hd : isDefault a v = true) :
+    encAdds (m :: ms) (a :: as) (v :: vs) = encAdds (m :: ms) (a :: as) (.absent :: vs) := by
+  cases v <;> first
+    | rfl
+    | (rw [encAdds, encAdds] <;> first | (simp only [hd, if_true]; done) | (intro h; cases h))
+
+theorem encAdds_present (m : PTy) (ms : List PTy) (a : Attr) (as : List Attr) (v : Val) (vs : List Val)
+    (hv : isAbsent v = false) (hd : isDefault a v = false) :
+    encAdds (m :: ms) (a :: as) (v :: vs) =
+      match encUPER m v, encAdds ms as vs with
       | some x, some (bm, b) => some (true :: bm, openType x ++ b)
       | _, _ => none := by
   cases v <;> first
     | (simp [isAbsent] at hv; done)
-    | (rw [encAdds] <;> first | rfl | (intro h; cases h))
+    | (rw [encAdds] <;> first | (simp only [hd]; rfl) | (intro h; cases h))
 
 /-- an open type is read back: the octets are those of the complete encoding -/
 theorem decOpen (x tail : Bits) : decOctetsUnc (openType x ++ tail) = some (complete x, tail) := by
@@ -569,12 +578,12 @@ theorem decOpen (x tail : Bits) : decOctetsUnc (openType x ++ tail) = some (comp
   exact decOctetsUnc_enc (complete x) hw tail
 
 theorem decAdds_enc (adds : List PTy) (ih : ∀ m ∈ adds, RT m) :
-    ∀ (vs : List Val) (bm : List Bool) (ab tail : Bits),
-      canonAdds adds vs = true → encAdds adds vs = some (bm, ab) →
+    ∀ (as : List Attr) (vs : List Val) (bm : List Bool) (ab tail : Bits),
+      canonAdds adds as vs = true → encAdds adds as vs = some (bm, ab) →
       decAdds adds bm (ab ++ tail) = some (vs, tail) ∧ bm.length = adds.length := by
   induction adds with
   | nil =>
-    intro vs bm ab tail _ he
+    intro as vs bm ab tail _ he
     cases vs with
     | nil =>
       rw [encAdds] at he
@@ -583,7 +592,10 @@ theorem decAdds_enc (adds : List PTy) (ih : ∀ m ∈ adds, RT m) :
       simp [decAdds, skipOpen]
     | cons v vs => simp [encAdds] at he
   | cons m ms ihm =>
-    intro vs bm ab tail hc he
+    intro as vs bm ab tail hc he
+    cases as with
+    | nil => simp [canonAdds] at hc
+    | cons a as =>
     cases vs with
     | nil => simp [canonAdds] at hc
     | cons v vs =>
@@ -593,30 +605,31 @@ theorem decAdds_enc (adds : List PTy) (ih : ∀ m ∈ adds, RT m) :
       by_cases hab : isAbsent v = true
       · have := isAbsent_eq v hab; subst this
         rw [encAdds_absent] at he
-        cases h2 : encAdds ms vs with
+        cases h2 : encAdds ms as vs with
         | none => simp [h2] at he
         | some res =>
           obtain ⟨bm', ab'⟩ := res
           simp only [h2, Option.some.injEq, Prod.mk.injEq] at he
           obtain ⟨rfl, rfl⟩ := he
-          obtain ⟨h3, h4⟩ := ihm ihms vs bm' ab' tail hcr h2
+          obtain ⟨h3, h4⟩ := ihm ihms as vs bm' ab' tail hcr h2
           refine ⟨?_, by simp [h4]⟩
           rw [decAdds]
           simp only [h3]
       · have hab' : isAbsent v = false := by simpa using hab
         rw [hab'] at hv
-        simp only [Bool.false_eq_true, false_or] at hv
-        rw [encAdds_present m ms v vs hab'] at he
+        simp only [Bool.false_eq_true, false_or, Bool.not_eq_true'] at hv
+        obtain ⟨hnd, hv⟩ := hv
+        rw [encAdds_present m ms a as v vs hab' hnd] at he
         cases h1 : encUPER m v with
         | none => simp [h1] at he
         | some x =>
-          cases h2 : encAdds ms vs with
+          cases h2 : encAdds ms as vs with
           | none => simp [h1, h2] at he
           | some res =>
             obtain ⟨bm', ab'⟩ := res
             simp only [h1, h2, Option.some.injEq, Prod.mk.injEq] at he
             obtain ⟨rfl, rfl⟩ := he
-            obtain ⟨h3, h4⟩ := ihm ihms vs bm' ab' tail hcr h2
+            obtain ⟨h3, h4⟩ := ihm ihms as vs bm' ab' tail hcr h2
             obtain ⟨pad, hp, _⟩ := complete_spec x
             have hm := ih m (by simp) v x pad hv h1
             refine ⟨?_, by simp [h4]⟩
@@ -624,36 +637,44 @@ theorem decAdds_enc (adds : List PTy) (ih : ∀ m ∈ adds, RT m) :
             simp only [List.append_assoc, decOpen, hp, hm, h3]
 
 theorem encAdds_none_present (adds : List PTy) :
-    ∀ (vs : List Val) (bm : List Bool) (ab : Bits), encAdds adds vs = some (bm, ab) → bm.any id = false →
+    ∀ (as : List Attr) (vs : List Val) (bm : List Bool) (ab : Bits), canonAdds adds as vs = true →
+      encAdds adds as vs = some (bm, ab) → bm.any id = false →
       vs = absentVals adds.length ∧ ab = [] := by
   induction adds with
   | nil =>
-    intro vs bm ab he _
+    intro as vs bm ab _ he _
     cases vs with
     | nil => rw [encAdds] at he; simp at he; simp [absentVals, he]
     | cons v vs => simp [encAdds] at he
   | cons m ms ihm =>
-    intro vs bm ab he hb
+    intro as vs bm ab hc he hb
+    cases as with
+    | nil => simp [canonAdds] at hc
+    | cons a as =>
     cases vs with
     | nil => simp [encAdds] at he
     | cons v vs =>
+      simp only [canonAdds, Bool.and_eq_true, Bool.or_eq_true] at hc
+      obtain ⟨hv, hcr⟩ := hc
       by_cases hab : isAbsent v = true
       · have := isAbsent_eq v hab; subst this
         rw [encAdds_absent] at he
-        cases h2 : encAdds ms vs with
+        cases h2 : encAdds ms as vs with
         | none => simp [h2] at he
         | some res =>
           obtain ⟨bm', ab'⟩ := res
           simp only [h2, Option.some.injEq, Prod.mk.injEq] at he
           obtain ⟨rfl, rfl⟩ := he
-          obtain ⟨h3, h4⟩ := ihm vs bm' ab' h2 (by simpa using hb)
+          obtain ⟨h3, h4⟩ := ihm as vs bm' ab' hcr h2 (by simpa using hb)
           simp [absentVals, List.replicate_succ, h3, h4]
       · have hab' : isAbsent v = false := by simpa using hab
-        rw [encAdds_present m ms v vs hab'] at he
+        rw [hab'] at hv
+        simp only [Bool.false_eq_true, false_or, Bool.not_eq_true'] at hv
+        rw [encAdds_present m ms a as v vs hab' hv.1] at he
         cases h1 : encUPER m v with
         | none => simp [h1] at he
         | some x =>
-          cases h2 : encAdds ms vs with
+          cases h2 : encAdds ms as vs with
           | none => simp [h1, h2] at he
           | some res =>
             obtain ⟨bm', ab'⟩ := res
@@ -826,9 +847,9 @@ theorem any_true_length (bm : List Bool) (h : bm.any id = true) : 1 ≤ bm.lengt
   | nil => simp at h
   | cons b bs => simp
 
-theorem rt_seq (root : List PTy) (rattrs : List Attr) (ext : Bool) (adds : List PTy)
+theorem rt_seq (root : List PTy) (rattrs : List Attr) (ext : Bool) (adds : List PTy) (aattrs : List Attr)
     (ihr : ∀ m ∈ root, RT m) (iha : ∀ m ∈ adds, RT m)
-    (hl : rattrs.length = root.length) (hn : adds.length < 16384) : RT (.seq root rattrs ext adds) := by
+    (hl : rattrs.length = root.length) (hn : adds.length < 16384) : RT (.seq root rattrs ext adds aattrs) := by
   intro v bits rest hc he
   cases v with
   | seq vs =>
@@ -841,7 +862,7 @@ theorem rt_seq (root : List PTy) (rattrs : List Attr) (ext : Bool) (adds : List 
     | some res1 =>
       obtain ⟨p, b, r⟩ := res1
       simp only [h1] at he
-      cases h2 : encAdds adds r with
+      cases h2 : encAdds adds aattrs r with
       | none => simp [h2] at he
       | some res2 =>
         obtain ⟨bm, ab⟩ := res2
@@ -849,7 +870,7 @@ theorem rt_seq (root : List PTy) (rattrs : List Attr) (ext : Bool) (adds : List 
         have hr0 := (decRoot_enc root ihr rattrs vs p b r [] hl hcr h1).2
         obtain ⟨hrd, hpl⟩ := hr0
         subst hrd
-        have hbl := (decAdds_enc adds iha _ bm ab [] hca h2).2
+        have hbl := (decAdds_enc adds iha aattrs _ bm ab [] hca h2).2
         have htd : vs.take root.length ++ vs.drop root.length = vs := List.take_append_drop _ _
         by_cases hany : bm.any id = true
         · -- extension additions present
@@ -867,12 +888,12 @@ theorem rt_seq (root : List PTy) (rattrs : List Attr) (ext : Bool) (adds : List 
             simp only [if_true, hany, Option.some.injEq] at he
             subst he
             have hR := (decRoot_enc root ihr rattrs vs p b _ (normallySmallLength bm.length ++ (bm ++ (ab ++ rest))) hl hcr h1).1
-            have hA := (decAdds_enc adds iha _ bm ab rest hca h2).1
+            have hA := (decAdds_enc adds iha aattrs _ bm ab rest hca h2).1
             have hN := decNormallySmallLength_enc bm.length (any_true_length bm hany) (by omega) (bm ++ (ab ++ rest))
             simp only [decUPER, if_true, List.cons_append, rdBit, List.append_assoc,
               rdBools_append _ p _ hpl, hR, hN, rdBools_append _ bm _ rfl, hA, htd]
         · have hany' : bm.any id = false := by simpa using hany
-          obtain ⟨hv, _⟩ := encAdds_none_present adds _ bm ab h2 hany'
+          obtain ⟨hv, _⟩ := encAdds_none_present adds aattrs _ bm ab hca h2 hany'
           cases ext with
           | false =>
             simp only [Bool.false_eq_true, if_false] at he
@@ -1137,10 +1158,10 @@ theorem rt_all : ∀ t, wfP t = true → RT t := by
   · intro s _; exact rt_octstr s
   · intro cw a b s _; exact rt_kmstr cw a b s
   · intro _; exact rt_unkstr
-  · intro root rattrs ext adds ihr iha hw
+  · intro root rattrs ext adds aattrs ihr iha hw
     simp only [wfP, Bool.and_eq_true, beq_iff_eq, decide_eq_true_eq] at hw
     obtain ⟨⟨⟨hwr, hwa⟩, hl⟩, hn⟩ := hw
-    exact rt_seq root rattrs ext adds (fun m hm => ihr m hm ((wfPs_iff root).mp hwr m hm))
+    exact rt_seq root rattrs ext adds aattrs (fun m hm => ihr m hm ((wfPs_iff root).mp hwr m hm))
       (fun m hm => iha m hm ((wfPs_iff adds).mp hwa m hm)) hl hn
   · intro root order ext adds ihr iha hw
     simp only [wfP, Bool.and_eq_true, decide_eq_true_eq] at hw
